@@ -186,6 +186,12 @@ func formatInput(v interface{}) (interface{}, error) {
 		return n, nil
 	case nil:
 		return nil, nil
+	case *decimal.Big:
+		// a typed nil number is null, like every other typed nil pointer
+		if n == nil {
+			return nil, nil
+		}
+		return n, nil
 	default:
 		return n, nil
 	}
